@@ -603,7 +603,7 @@ func runC16graph(t *vf.T, c c16graph) {
 		}
 		killed := 0
 		if top && c.Fresh == "kill" {
-			for k := 0; k < 20 && ls.Sys.Kill(nil); k++ {
+			for k := 0; k < 20 && ls.killRunning(); k++ {
 				killed++
 			}
 			t.Count("graph_machines_killed", int64(killed))
